@@ -15,7 +15,7 @@ pub fn prop() -> Prop {
     Prop {
         id: "C06",
         level: "exploration",
-        rule: "complete cross products: integer boundary lattice (0, ±1, ±2, ±7, ±2^k, ±(2^k±1), k<=60, both range ends, two seed-rotated values) squared x 11 operators x 4 syntactic forms (literal op literal; variable op literal, literal op variable and variable op variable inside a function; the fused opcodes are selected by the middle two); 66 ordinary integers (round decimals, values between 2^31 and 2^32, factors around the square root of the range limit) squared x 11 operators x 4 forms, and against every float in both orders; three-operand chains `x op1 c1 op2 c2` and `c1 op1 x op2 c2` (13 x incl. the range ends, 15 constants squared, 5 x 5 arithmetic operators; x a local and a global); the same chains over 15 x 14² floats and 4 x 4 operators (nothing may be regrouped); 26 float values squared x 11 operators; 110 neighbouring floats (values 0, 1 and 2 units in the last place around 11 magnitudes, both signs) squared x 6 comparisons x 2 forms, and arithmetic results against the literal next to them; all string pairs of length <=2 over {a,b,é,😀} x 6 comparisons; strings of 3..33 characters (around the machine-word sizes) that differ at one position, at two positions in opposite directions (every pair of positions), by a wide character, or by being a prefix, x 6 comparisons x 2 forms; all 7x7 type pairs x 13 operators; !(x op y) for every float pair and every type pair x 6 comparisons; order axioms over all triples of 40-value subsets read through the interpreter. A case is one program; it is non-trivial if it parsed back to the generated tree and the reference model defines its outcome (not Ux); distinct = distinct program texts",
+        rule: "complete cross products: integer boundary lattice (0, ±1, ±2, ±7, ±2^k, ±(2^k±1), k<=60, both range ends, two seed-rotated values) squared x 11 operators x 4 syntactic forms (literal op literal; variable op literal, literal op variable and variable op variable inside a function; the fused opcodes are selected by the middle two); 66 ordinary integers (round decimals, values between 2^31 and 2^32, factors around the square root of the range limit) squared x 11 operators x 4 forms, and against every float in both orders; three-operand chains `x op1 c1 op2 c2` and `c1 op1 x op2 c2` (13 x incl. the range ends, 15 constants squared, 5 x 5 arithmetic operators; x a local and a global); all-literal expressions of two and three range-end constants as the operand of a local; the same chains over 15 x 14² floats and 4 x 4 operators (nothing may be regrouped); 26 float values squared x 11 operators; 110 neighbouring floats (values 0, 1 and 2 units in the last place around 11 magnitudes, both signs) squared x 6 comparisons x 2 forms, and arithmetic results against the literal next to them; all string pairs of length <=2 over {a,b,é,😀} x 6 comparisons; strings of 3..33 characters (around the machine-word sizes) that differ at one position, at two positions in opposite directions (every pair of positions), by a wide character, or by being a prefix, x 6 comparisons x 2 forms; all 7x7 type pairs x 13 operators; !(x op y) for every float pair and every type pair x 6 comparisons; order axioms over all triples of 40-value subsets read through the interpreter. A case is one program; it is non-trivial if it parsed back to the generated tree and the reference model defines its outcome (not Ux); distinct = distinct program texts",
         assumptions: &[
             "the reference model's operator table (refint::infix: i64 checked arithmetic within the 61-bit range, Rust f64, str ordering) is the specification",
             "operand values outside the enumerated lattices are not covered",
@@ -559,6 +559,35 @@ fn run(sh: &mut Shard) {
             }
         }
     }
+    // F1e an all-literal expression as the right (and left) operand of a local: x op0 (c1 op1 c2) and
+    // x op0 (c1 op1 c2 op2 c3) with range-end constants (an intermediate result outside the range is an error
+    // wherever it arises)
+    {
+        let max = (1i64 << 60) - 1;
+        let cs: Vec<i64> = vec![1, 2, 4, 8, 7, max, max - 1, 1 << 59, -max - 1, -1, 1 << 30];
+        let aops = [Operator::Add, Operator::Subtract, Operator::Multiply, Operator::Divide, Operator::Modulo];
+        for x in [1i64, -1, 0, max, 7] {
+            for op0 in &aops {
+                for c1 in &cs {
+                    for c2 in &cs {
+                        for op1 in &aops {
+                            let inner = infix(lit_expr(*c1), op1.clone(), lit_expr(*c2));
+                            run_case(sh, "int-literal-operand", &[es(call(func("", &["x"], vec![es(infix(id("x"), op0.clone(), inner.clone()))]), vec![lit_expr(x)]))]);
+                            run_case(sh, "int-literal-operand", &[es(call(func("", &["x"], vec![es(infix(inner.clone(), op0.clone(), id("x")))]), vec![lit_expr(x)]))]);
+                            run_case(sh, "int-literal-operand", &[let_("x", lit_expr(x)), es(infix(id("x"), op0.clone(), inner.clone()))]);
+                            for c3 in [2i64, 8, max, -1] {
+                                for op2 in &aops {
+                                    let inner3 = infix(inner.clone(), op2.clone(), lit_expr(c3));
+                                    run_case(sh, "int-literal-operand", &[es(call(func("", &["x"], vec![es(infix(id("x"), op0.clone(), inner3.clone()))]), vec![lit_expr(x)]))]);
+                                    run_case(sh, "int-literal-operand", &[es(call(func("", &["x"], vec![es(infix(id("x"), op0.clone(), neg(inner3)))]), vec![lit_expr(x)]))]);
+                                }
+                            }
+                        }
+                    }
+                }
+            }
+        }
+    }
     // F1d the same chains over floats (floating-point addition and multiplication are not associative: nothing
     // may be regrouped), x a local and a global
     {
@@ -642,7 +671,7 @@ fn replay(sh: &mut Shard, case: &Value) {
 }
 
 fn vacuity(m: &Merged) -> Option<String> {
-    for fam in ["int-literal", "int-var-lit", "int-lit-var", "int-var-var", "int-ordinary", "int-float", "int-chain", "float-chain", "float", "string", "string-long", "float-neighbours", "negated-comparison", "cross-type", "bool-table", "axioms"] {
+    for fam in ["int-literal", "int-var-lit", "int-lit-var", "int-var-var", "int-ordinary", "int-float", "int-chain", "int-literal-operand", "float-chain", "float", "string", "string-long", "float-neighbours", "negated-comparison", "cross-type", "bool-table", "axioms"] {
         if m.counters.get(&format!("family:{fam}")).copied().unwrap_or(0) == 0 {
             return Some(format!("family {fam} produced no case"));
         }
